@@ -51,3 +51,19 @@ Proof.
     rewrite (Proofs.Ping.run_snoc fx _ tr (Ping.Notify id) st Hrun). exact Hs.
   - injection H1 as <- <-. apply (parse_effect_no_panic fx c s n tr st); auto.
 Qed.
+
+(* Parse is a function of (configuration, bytes) only: whatever the waiter table holds - no waiter, a waiter with the
+   identifier of this very echo reply, other waiters - the frame Parse returns is the one of the pure [parse]. *)
+Theorem parse_independent_of_ping_table fx c s st st' f :
+  parse_effect fx c s st = Ok (f, st') -> parse c s = Ok f.
+Proof.
+  unfold parse_effect. destruct (parse c s) as [f0|e| |]; try discriminate.
+  destruct (f_echo f0); [destruct (Ping.step fx st (Ping.Notify _)); try discriminate|];
+  intros E; injection E as <- _; reflexivity.
+Qed.
+
+Corollary parse_same_frame_any_table fx c s st1 st2 f1 f2 st1' st2' :
+  parse_effect fx c s st1 = Ok (f1, st1') -> parse_effect fx c s st2 = Ok (f2, st2') -> f1 = f2.
+Proof.
+  intros H1 H2. apply parse_independent_of_ping_table in H1. apply parse_independent_of_ping_table in H2. congruence.
+Qed.
